@@ -125,7 +125,8 @@ def check_property(spec: PropertySpec, tier="quick", seed=0, src_root="/repo/src
 
     # ---- 1. generate and discharge
     reports = []
-    for t in spec.targets:
+    dev_standins_only = bool(os.environ.get("PYVC_DEV_STANDINS_ONLY"))  # development aid (seed sweeps); never used by a registered command
+    for t in ([] if dev_standins_only else spec.targets):
         if t not in E.registry.contracts:
             faults.append(f"no contract registered for {t}")
             continue
@@ -343,8 +344,9 @@ def check_property(spec: PropertySpec, tier="quick", seed=0, src_root="/repo/src
         exit_code=exit_code,
     )
     os.makedirs(os.path.join(VERIF, "evidence"), exist_ok=True)
-    with open(os.path.join(VERIF, "evidence", f"{spec.pid}.json"), "w") as f:
-        json.dump(evidence, f, indent=1, default=str)
+    if not dev_standins_only:
+        with open(os.path.join(VERIF, "evidence", f"{spec.pid}.json"), "w") as f:
+            json.dump(evidence, f, indent=1, default=str)
     print(f"[{spec.pid}] tier={tier} obligations={len(proof_obs)} discharged={len(discharged)} guards={len(guard_obs)} "
           f"standins={sum((v.get('evaluations') or 0) for v in standin_cov.values())} wall={evidence['wall_s']}s exit={exit_code}", file=out)
     for l in lines:
